@@ -123,23 +123,23 @@ PROPS = {
         "rule": "generated concurrent workloads on one v1 classifier under the Go race detector with result comparison against a sequential reference (stringclassifier.Classifier populated lazily and precomputed; licenseclassifier.License built from an in-process archive)",
         "assumptions": ["schedules are sampled, not owned (see C09)", "queries are built so that the best match is unique (NearestMatch is documented as undefined on ties)"],
         "timeout": {"quick": 600, "thorough": 3000},
-        "parts": [part("strcls", "TestVerif_C14_StringClassifier", "stringclassifier", 160, 3000, shards=(8, 16), race=True, prewrite=True, gomaxprocs=8),
-                  part("rootpkg", "TestVerif_C14_License", "license", 24, 400, shards=(4, 16), race=True, prewrite=True, gomaxprocs=8)],
+        "parts": [part("strcls", "TestVerif_C14_StringClassifier", "stringclassifier", 160, 3000, shards=(8, 16), race=True, prewrite=True, gomaxprocs=8, timing_tolerant=True),
+                  part("rootpkg", "TestVerif_C14_License", "license", 24, 400, shards=(4, 16), race=True, prewrite=True, gomaxprocs=8, timing_tolerant=True)],
     },
     "C15": {
         "rule": "differential: classifier loaded from the archive written by ArchiveLicenses vs classifier built directly from the same normalised texts with fresh search sets, over generated archives and queries; see part rule",
         "assumptions": ["license files <= 8 KiB keep go-diff's character-level diffs far from its 1 s wall-clock deadline", "NearestMatch name differences are accepted only when both names are shown to reach the same confidence"],
         "timeout": {"quick": 900, "thorough": 5400},
-        "parts": [part("rootpkg", "TestVerif_C15", "archive-roundtrip", 480, 8000, shards=(12, 16)),
-                  part("rootpkg", "TestVerif_C15_BigFiles", "big-files", 0, 0, shards=(8, 16), enum=True)],
+        "parts": [part("rootpkg", "TestVerif_C15", "archive-roundtrip", 480, 8000, shards=(12, 16), timing_tolerant=True),
+                  part("rootpkg", "TestVerif_C15_BigFiles", "big-files", 0, 0, shards=(8, 16), enum=True, timing_tolerant=True)],
     },
     "C16": {
         "rule": "enumeration of every shipped license file x presentation variants against a classifier built in process from the whole licenses/ directory, plus generated threshold-bound cases",
         "assumptions": ["the archive is built in process with serializer.ArchiveLicenses (licenses.db is not shipped in the repository)"],
         "timeout": {"quick": 900, "thorough": 5400},
         "parts": [
-            part("rootpkg", "TestVerif_C16_OwnCorpus", "own-corpus", 0, 0, shards=(12, 16), enum=True),
-            part("rootpkg", "TestVerif_C16_Threshold", "threshold-bound", 240, 4000, shards=(4, 16)),
+            part("rootpkg", "TestVerif_C16_OwnCorpus", "own-corpus", 0, 0, shards=(12, 16), enum=True, timing_tolerant=True),
+            part("rootpkg", "TestVerif_C16_Threshold", "threshold-bound", 240, 4000, shards=(4, 16), timing_tolerant=True),
         ],
     },
     "C17": {
